@@ -96,16 +96,22 @@ MODEL_PLACEMENTS = [("model", k, r, "typed") for k in KINDS for r in ("req", "op
 PARAM_PLACEMENTS = [("param", loc, b) for loc in ("path", "query", "header", "cookie") for b in ("nobody", "body")]
 
 
-def placements_for(name, scopes, regular=True):
+REDUCED = [("model", "str", "req", "typed"), ("param", "query", "body"), ("param", "path", "nobody")]
+
+
+def placements_for(name, scopes, regular=True, reduced=False, raw=True):
     """regular=False: only the raw-name pair placements (for a name that PythonIdentifier changes, the regular placements
-    exercise the changed spelling, which is a different candidate)"""
+    exercise the changed spelling, which is a different candidate); reduced: one model / one query-with-body / one path placement;
+    a spelling with a space cannot be an HTTP header / cookie name nor a path placeholder (the generator's path regex refuses it with a diagnostic): model and query placements only"""
     m, e = family(scopes)
     out = []
     if m and regular:
         out += MODEL_PLACEMENTS
     if e and regular:
-        out += PARAM_PLACEMENTS
-    if partner_of(name) is not None:
+        out += [pl for pl in PARAM_PLACEMENTS if " " not in name or pl[1] == "query"]
+    if reduced:
+        out = [pl for pl in out if pl in REDUCED]
+    if raw and partner_of(name) is not None:
         if m:
             out.append(("modelraw",))
         if e:
@@ -493,15 +499,33 @@ def work(job):
 
 
 # ------------------------------------------------------------------ the check
-def make_units(cands, table_scopes, raw_only=()):
+def make_units(cands, table_scopes, raw_only=(), reduced=(), spellings=()):
     units = []
     for name in cands:
-        for pl in placements_for(name, table_scopes[name], regular=name not in raw_only):
+        for pl in placements_for(name, table_scopes[name], regular=name not in raw_only, reduced=name in reduced, raw=name not in spellings):
             u = {"name": name, "pl": pl, "key": name + "|" + pl_str(pl)}
             if pl[0] in ("modelraw", "paramraw"):
                 u["partner"] = partner_of(name)
             units.append(u)
     return units
+
+
+def name_correspondence(names):
+    """stage B on the python names themselves: utils.PythonIdentifier(s, 'field_') of the tree under verification == Names.python_identifier
+    (the proved model, RenameThm.spelling_avoids / python_identifier_avoids are about it) for every candidate and every spelling.
+    -> (observed python names, {s: model value} for the mismatches)"""
+    names = sorted(names)
+    obs = {n: pyid(n) for n in names}
+    hdr = "Require Import OPC.Uni OPC.Names.\nOpen Scope N_scope.\n"
+    terms = [f"str_eqb (python_identifier {cstr(n)} {cstr('field_')} false) {cstr(obs[n])}" for n in names]
+    bad = run_cases(hdr, terms, shard=120, jobs=14)
+    out = {}
+    for i in bad[:40]:
+        from lib.common import decode_coq_str
+        out[names[i]] = decode_coq_str(coq_eval(hdr, f"python_identifier {cstr(names[i])} {cstr('field_')} false"))
+    for i in bad[40:]:
+        out[names[i]] = "?"
+    return obs, out
 
 
 def control_units():
@@ -537,27 +561,57 @@ def run(run, tier, replay=None):
     table = load_table()
     known_names = {f["witness"].get("name") for f in run.known.values() if isinstance(f.get("witness"), dict)}
     names, scopes, raw_only = select(table, tier, rng, known_names)
+    table_names = set(scopes)
+    # spellings that python_identifier must keep apart from a template identifier N (or fold onto N's own python name): _N, __N, N_, ' N', -N, N-, case variants
+    spell = {}
+    for sp in table.get("spellings", []):
+        spell.setdefault(sp["name"], []).append(sp["target"])
+    for sp, targets in spell.items():
+        scopes[sp] = sorted(set(scopes.get(sp, [])) | {sc for t in targets for sc in scopes.get(t, []) if sc.startswith(("model.", "endpoint.", "enum."))})
+    rp = json.load(open(replay)) if replay else None
+    # ---- stage B on the names: the implementation's PythonIdentifier == the proved model, for EVERY candidate and EVERY spelling (all tiers)
+    t0 = time.time()
+    check_names = sorted(table_names | set(spell)) if not replay else sorted({v["name"] for v in rp["violations"] if "name" in v})
+    pyname, name_bad = name_correspondence(check_names)
+    print("phase names %.1fs (%d names, %d mismatches)" % (time.time() - t0, len(check_names), len(name_bad)))
+    for sp, model in sorted(name_bad.items())[:12]:
+        run.violation("correspondence", {"name": sp, "placement": "python-name", "impl": pyname[sp], "model": model, "targets": spell.get(sp),
+                                         "note": "utils.PythonIdentifier no longer computes what Names.python_identifier (for which spelling_avoids / python_identifier_avoids are proved) computes; "
+                                                 "the placements of this spelling are searched for a concrete capture below"})
+    if tier == "thorough":
+        sp_pick, reduced = sorted(spell), set()
+    else:
+        us = [sp for sp in spell if sp.startswith("_")]
+        others = sorted(set(spell) - set(us))
+        sp_pick = sorted(set(us) | set(rng.sample(others, len(others) // 4)))
+        reduced = set(sp_pick) - table_names
+    sp_pick = sorted(set(sp_pick) | set(name_bad) & set(spell))
+    reduced -= set(name_bad)
+    names = sorted(set(names) | set(sp_pick))
     scopes[NEUTRAL] = ["control"]
     scopes["ZqNeutral"] = ["control"]
-    units = make_units(names, scopes, raw_only)
+    only_spelling = set(spell) - table_names
+    units = make_units(names, scopes, raw_only, reduced, only_spelling)
     if replay:
-        rp = json.load(open(replay))
         want = {(v["name"], v["placement"]) for v in rp["violations"] if "name" in v and "placement" in v}
         for n, _ in want:
             scopes.setdefault(n, ["replay"])
-        units = [u for u in make_units(sorted({n for n, _ in want}), scopes) if (u["name"], pl_str(u["pl"])) in want]
+        units = [u for u in make_units(sorted({n for n, _ in want}), scopes, spellings=only_spelling) if (u["name"], pl_str(u["pl"])) in want]
     # pack: ~12 candidates per document, all placements of a candidate in the same document, controls in every document
     by_name = {}
     for u in units:
         by_name.setdefault(u["name"], []).append(u)
     order = sorted(by_name)
     rng.shuffle(order)
-    per_doc = 9 if tier == "quick" else 12
-    jobs = []
-    for i in range(0, len(order), per_doc):
-        job = control_units()
-        for n in order[i:i + per_doc]:
-            job += by_name[n]
+    per_doc = 150 if tier == "quick" else 210          # candidate units per document
+    jobs, job, cnt = [], control_units(), 0
+    for n in order:
+        job += by_name[n]
+        cnt += len(by_name[n])
+        if cnt >= per_doc:
+            jobs.append(job)
+            job, cnt = control_units(), 0
+    if cnt:
         jobs.append(job)
     run.rule = ("candidates: every identifier of the regenerated table build/gen_names.json (identifiers bound or read by the generated code of a probe client, per scope; "
                 "keywords, soft keywords, builtins, case variants) - thorough: all; quick: every function-scope identifier that survives PythonIdentifier unchanged, every "
@@ -626,7 +680,13 @@ def run(run, tier, replay=None):
                 continue
             n_units += 1
             fam = "model" if u["pl"][0] in ("model", "modelraw", "multipart") else "endpoint"
-            scope = scope_of(scopes.get(u["name"], ["?"]), fam)
+            # a spelling whose python name (implementation == proved model) is the template identifier N itself generates the same code as N:
+            # its captures are N's captures
+            canon = u["name"]
+            pn = pyname.get(canon)
+            if canon not in name_bad and pn and pn != canon and pn in table_names and pn not in name_bad and pyname.get(pn) == pn and u["pl"][0] not in ("modelraw", "paramraw"):
+                canon = pn
+            scope = scope_of(scopes.get(canon, ["?"]), fam)
             run.note_case({"name": u["name"], "placement": pls, "scope": scope}, nontrivial=True, kind=u["pl"][0])
             c = ctrl.get(pls)
             evidence = []
@@ -652,8 +712,10 @@ def run(run, tier, replay=None):
             elif not evidence:
                 evidence.append("no control for this placement in the document")
             if evidence:
-                captures.setdefault((scope, u["name"]), []).append((pls, evidence, u))
-    run.corr = {"cases": n_terms, "mismatches": n_ctrl_bad, "mismatches_that_are_captures": corr_mis,
+                if canon != u["name"]:
+                    evidence = [f"(document spelling {u['name']!r} -> python name {canon!r}) " + evidence[0]] + evidence[1:]
+                captures.setdefault((scope, canon), []).append((pls, evidence, u))
+    run.corr = {"cases": n_terms + len(check_names), "mismatches": n_ctrl_bad + len(name_bad), "mismatches_that_are_captures": corr_mis,
                 "what": "per (candidate, placement): generated from_dict/to_dict == Codec.dec/enc (codec_case) and generated _get_kwargs == Endpoint.get_kwargs (kw_case) on the class / "
                         "endpoint abstracted from the implementation's parse; mismatches of a candidate whose neutral control matches are captures (classified below), mismatches of the control are violations"}
     run.exhaustive = (tier == "thorough" and not replay)
@@ -676,11 +738,12 @@ def run(run, tier, replay=None):
     for scope, name, hits in unlisted[:40]:
         pls, ev, u = hits[0]
         ctl = [c for c in control_units() if pl_str(c["pl"]) == pls]
-        run.violation("oracle", {"scope": scope, "name": name, "placement": pls, "all_placements": sorted({h[0] for h in hits}), "evidence": ev[:4],
-                                 "doc": build_doc(renumber(ctl + [u])), "finding_id_if_genuine": finding_id(scope, name),
+        run.violation("oracle", {"scope": scope, "name": u["name"], "python_name": name, "placement": pls, "all_placements": sorted({h[0] for h in hits}), "evidence": ev[:4],
+                                 "doc": build_doc(renumber(ctl + [u])), "finding_id_if_genuine": finding_id(scope, u["name"] if u["name"] in name_bad else name),
                                  "note": "a document name captures a name of the generated code and this (scope, name) is not a listed finding"})
     run.corr["mismatches"] += sum(1 for _, _, hits in unlisted for h in hits for e in h[1] if e.startswith("stage B"))
-    run.extra.update({"candidates": len(names), "candidate_table_size": len(table["candidates"]), "units": n_units, "captures": len(captures), "raw_pairs_rejected_with_diagnostic": n_rejected,
+    run.extra.update({"spellings_in_table": len(spell), "python_names_compared_with_model": len(check_names), "python_name_mismatches": len(name_bad),
+                      "candidates": len(names), "candidate_table_size": len(table["candidates"]), "units": n_units, "captures": len(captures), "raw_pairs_rejected_with_diagnostic": n_rejected,
                       "captures_listed": sorted(listed), "documents": sum(r.get("docs", 0) for r in results),
                       "derived_patterns_of_the_templates": [(p["prefix"], p["suffix"]) for p in table.get("patterns", [])]})
     stale = sorted(set(run.known) - set(listed)) if (tier == "thorough" and not replay) else []
